@@ -105,10 +105,10 @@ type c20Viol struct {
 
 type c20Stats struct {
 	sendOps, sent, probes, ackOnly, ackEvents, acked, lost, lossEvents, cuts, grows, mtu, mtuRebase int
-	appLtdAcks, limitedAcks, recoveryAcks, paceWaits, paceBlocked, cwndBlocked, ssExit, rto    int
-	ecn, rttSamples, atMax, atMin, floorHits                                                   int
-	minCwndPk, maxCwndPk                                                                        int64
-	pairs                                                                                       int64
+	appLtdAcks, limitedAcks, recoveryAcks, paceWaits, paceBlocked, cwndBlocked, ssExit, rto         int
+	ecn, rttSamples, atMax, atMin, floorHits                                                        int
+	minCwndPk, maxCwndPk                                                                            int64
+	pairs                                                                                           int64
 }
 
 type c20Run struct {
@@ -585,39 +585,70 @@ func c20Burst(bw float64, mds protocol.ByteCount) float64 {
 	return math.Max(10*float64(mds), 1.25*bw*(protocol.MinPacingDelay+protocol.TimerGranularity).Seconds())
 }
 
+// c20PairCheck evaluates  Σ bytes(i..j) ≤ burst + 1.25·B_max(i..j)·(t_j−t_i) + one packet  for every
+// pair i ≤ j of the trace.  Pairs that cannot violate are skipped soundly: the allowance is
+// non-decreasing in j (time, maximum bandwidth and datagram size only grow), and the sum grows by
+// at most maxSize per entry, so with a margin M the next maxSize-steps cannot violate; skips never
+// cross a change of bandwidth or datagram size.  A start i that directly follows an authorised
+// send at the same instant with the same estimate is dominated by that predecessor.
 func c20PairCheck(p []c20Pace, pairs *int64) string {
-	// Every pair (i, j) for traces of up to c20PairWindow sends; for longer traces every pair at
-	// distance <= c20PairWindow, and all j for every 64th i.
-	const c20PairWindow = 2000
-	for i := range p {
+	n := len(p)
+	if n == 0 {
+		return ""
+	}
+	ts := make([]float64, n)
+	cum := make([]int64, n+1)
+	segEnd := make([]int, n)
+	maxSize := 1.0
+	for j := range p {
+		ts[j] = float64(p[j].t.Sub(p[0].t)) / 1e9
+		cum[j+1] = cum[j] + int64(p[j].bytes)
+		maxSize = math.Max(maxSize, float64(p[j].bytes))
+	}
+	for j := n - 1; j >= 0; j-- {
+		if j+1 < n && p[j+1].bw == p[j].bw && p[j+1].mds == p[j].mds {
+			segEnd[j] = segEnd[j+1]
+		} else {
+			segEnd[j] = j
+		}
+	}
+	var evaluated int64
+	for i := 0; i < n; i++ {
 		if p[i].bytes == 0 {
 			continue // not an authorised send (bandwidth sample only)
 		}
-		var sum protocol.ByteCount
-		bw := 0.0
-		var mds protocol.ByteCount
-		end := len(p)
-		if len(p) > c20PairWindow && i%64 != 0 {
-			end = min(len(p), i+c20PairWindow)
+		if i > 0 && p[i-1].bytes > 0 && p[i-1].t == p[i].t && p[i-1].bw == p[i].bw && p[i-1].mds == p[i].mds {
+			continue
 		}
-		for j := i; j < end; j++ {
-			sum += p[j].bytes
-			bw = math.Max(bw, p[j].bw)
-			mds = max(mds, p[j].mds)
-			if p[j].bytes == 0 {
-				continue
+		bw, mds := p[i].bw, p[i].mds
+		burst := c20Burst(bw, mds)
+		for j := i; j < n; {
+			if p[j].bw > bw || p[j].mds > mds {
+				bw = math.Max(bw, p[j].bw)
+				mds = max(mds, p[j].mds)
+				burst = c20Burst(bw, mds)
 			}
-			dt := p[j].t.Sub(p[i].t).Seconds()
+			sum := float64(cum[j+1] - cum[i])
+			dt := ts[j] - ts[i]
 			if dt < 0 {
 				dt = 0
 			}
-			allowed := c20Burst(bw, mds) + 1.25*bw*dt*(1+1e-9) + float64(mds) + 1
-			if float64(sum) > allowed {
-				return fmt.Sprintf("authorised sends %d..%d: %d bytes in %.9fs, allowed burst %.0f + 1.25 x %.0f B/s x dt + %d = %.0f", i, j, sum, dt, c20Burst(bw, mds), bw, mds, allowed)
+			allowed := burst + 1.25*bw*dt*(1+1e-9) + float64(mds) + 1
+			evaluated++
+			if sum > allowed {
+				return fmt.Sprintf("authorised sends %d..%d of the trace: %.0f bytes in %.9fs, allowed burst %.0f + 1.25 x %.0f B/s x dt + %d = %.0f", i, j, sum, dt, burst, bw, mds, allowed)
 			}
+			step := 1
+			if m := allowed - sum; m > 3*maxSize {
+				step = int(math.Min(m/maxSize, 1e9)) - 1
+				if j+step > segEnd[j] {
+					step = max(1, segEnd[j]-j)
+				}
+			}
+			j += step
 		}
-		*pairs += int64(end - i)
 	}
+	*pairs += evaluated
 	return ""
 }
 
